@@ -15,9 +15,10 @@ PROPS = {
         "harness": "c11",
         "theorems": ["DL.C11_mode", "DL.C11_mode_dict", "DL.C11_mode_needs_keys", "DL.C11_daughters_order",
                      "DL.C11_daughters_count", "DL.C11_daughters_len", "DL.C11_daughters_canonical",
-                     "DL.C11_daughters_string", "DL.C11_daughters_counts", "DL.C11_daughters_counts_drop"],
-        "partial": ["chain <-> dictionary round trip (C11_chain) is not yet a theorem: it is carried by the model tie "
-                    "(to_dict / from_dict of the code against the executable model) and the direct round-trip predicate"],
+                     "DL.C11_daughters_string", "DL.C11_daughters_counts", "DL.C11_daughters_counts_drop",
+                     "DL.C11_chain", "DL.C11_chain_reachable", "DL.chain_roundtrip"],
+        "partial": ["the parser-chain direction (dictionary with unsorted daughters -> class -> dictionary, equal up to the order of daughters) "
+                    "is carried by the correspondence on generated files"],
         "assumptions": ["metadata keys are not bf, fs, daughters (the constructor's own parameter names)",
                         "model_params None and '' are the same value (to_dict normalises)"],
     },
@@ -37,16 +38,18 @@ PROPS = {
     },
     "C10": {
         "harness": "c10",
-        "theorems": ["DL.C10_count", "DL.C10_count_formula", "DL.C10_alias", "DL.pathCount_eq_zero", "DL.expand_length"],
-        "partial": ["'each choice exactly once, spelled out' is carried by the correspondence with an independent enumerator of "
-                    "choices in the harness; the Lean theorems give the count and the alias clause"],
+        "theorems": ["DL.C10_count", "DL.C10_count_formula", "DL.C10_alias", "DL.pathCount_eq_zero", "DL.expand_length",
+                     "DL.C10_enum", "DL.C10_choices_complete", "DL.C10_choices_nodup", "DL.C10_choices_length", "DL.C10_isChoice_iff", "DL.C10_render_formula"],
+        "partial": [],
         "assumptions": [],
     },
     "C13": {
         "harness": "c13",
-        "theorems": ["DL.C13_render", "DL.C13_canonical", "DL.C13_canonical_perm", "DL.expand_single"],
-        "partial": ["read-back by bracket matching (C13_readback, injectivity) is not yet a Lean theorem: the harness reads every "
-                    "real descriptor back with a bracket reader and compares with the tree"],
+        "theorems": ["DL.C13_render", "DL.C13_canonical", "DL.C13_canonical_perm", "DL.expand_single",
+                     "DL.render_top", "DL.render_sub", "DL.splitTop_joinSp", "DL.C13_readback", "DL.C13_readback_toString",
+                     "DL.C13_injective", "DL.C13_injective_labels", "DL.Shape.Equiv.sound"],
+        "partial": ["read-back is proved for the default patterns; for user-chosen patterns the rendering theorem C13_render holds and the "
+                    "harness compares real renderings with the model"],
         "assumptions": ["rendering is modelled for patterns whose fields carry no conversion or format spec"],
     },
     "C14": {
@@ -95,18 +98,21 @@ PROPS = {
     },
     "C04": {
         "harness": "c04",
-        "theorems": ["DL.C04_table", "DL.table_rows_ok", "DL.table_names_sorted", "DL.conjName_eq", "DL.C04_selfconj", "DL.C04_unknown", "DL.C04_unknown_pdg"],
-        "partial": ["final states and decay modes (multiplicities, metadata) and the PDG-name route are carried by the exhaustive / random "
-                    "correspondence (C04_daughters, C04_mode are not theorems yet)"],
+        "theorems": ["DL.C04_table", "DL.table_rows_ok", "DL.table_names_sorted", "DL.conjName_eq", "DL.C04_selfconj", "DL.C04_unknown", "DL.C04_unknown_pdg",
+                     "DL.C04_daughters", "DL.C04_daughters_length", "DL.C04_daughters_count", "DL.C04_mode", "DL.C04_agree"],
+        "partial": ["the PDG-name table is carried by the exhaustive correspondence (all 1014 names), not decided in the kernel"],
         "assumptions": ["the particle tables are the installed `particle` package's (environment), regenerated on every run"],
         "gen_obligations": ["table_rows_ok and table_sorted_adj are decided by the kernel over the regenerated 806-row table"],
     },
     "C03": {
         "harness": "c03",
         "theorems": ["DL.C03_switch_off", "DL.C03_source_untouched", "DL.C03_precedence", "DL.C03_miss", "DL.C03_shape", "DL.C03_first_daughter",
-                     "DL.C03_orientation", "DL.C03_database_rule", "DL.C03_unknown_marked", "DL.C03_selfconj"],
-        "partial": ["'the growing dictionary of the visitor never changes an answer' (C03_cache) is not a theorem yet: the model threads the "
-                    "dictionary exactly as the code does and the daughters of conjugated tables are compared with the code on every generated file"],
+                     "DL.C03_orientation", "DL.C03_database_rule", "DL.C03_unknown_marked", "DL.C03_selfconj",
+                     "DL.matchCC_dset_cache", "DL.C03_cache", "DL.C03_table", "DL.C03_cache_defs", "DL.C03_tables",
+                     "DL.gen_db_involutive", "DL.C03_cache_gen", "DL.C03_table_gen", "DL.C03_tables_gen"],
+        "modules": ["DL.Props.C03Gen"],
+        "partial": ["C03_table needs that no name met while conjugating is the wrapped form ChargeConj(p) of another one met (hwrap): a label "
+                    "of that literal form is possible in the grammar but is outside the property's quantifier"],
         "assumptions": ["each name is the subject of at most one CDecay (the property's own quantifier)"],
     },
     "C05": {
